@@ -9,7 +9,7 @@ pub fn def() -> PropDef {
         builds: BOTH,
         rule: "(i) every one of the 1,112,064 Unicode scalar values, alone and embedded between escape sequences; (ii) every string over {L,W,CM,E2,EM,TAB,SP,CSI,CSI2,OSB,OSS} up to length N, with every insertion of each of 4 well-formed sequences at every symbol boundary and every split for additivity; (iii) every string over raw escape pieces {L,W,ESC,[,],\\,BEL,m,;,1} up to length N for the byte-length bound; (iv) a scan of every byte 0x20..0x7F as CSI final byte / inside an OSC; non-trivial = a string containing a sequence or a character whose width differs from 1",
         assumptions: BASE_ASSUMPTIONS,
-        floor: |t| t.pick(100_000, 1_000_000),
+        floor: |t| t.pick(100_000, 300_000),
         run,
     }
 }
